@@ -84,6 +84,15 @@ CHECKS["C03"] = dict(category="exploration",
       note="Anchors are taken as the code reports them (C01 decides their correctness). Groups whose smallest covering arc is >= L/2, "
            "partial superior overlap and extender must-admit on overlapping gene layouts are counted but not asserted (see DESIGN.md section 7).",
       design="3/C03")
+CHECKS["C15"] = dict(category="exploration",
+      technique="exhaustive enumeration of short codon strings x strand x offset x record length x minimum length and of gene layouts on ORF-dense rings, plus Hypothesis DNA/layout generators, against an independent ORF scanner and Biopython extraction",
+      text="scan_orfs is compared (set equality both ways, coordinates, strand, origin wrapping, exact extraction) with an independent scanner "
+           "over all codon strings up to 5 (thorough 6) codons from a start/stop-rich alphabet and random IUPAC strings; find_all_orfs is "
+           "checked on gene-free rings/lines (equality) and on enumerated/random gene layouts (every returned ORF is an ORF, >= min length, "
+           "inside the area, within the allowed overlap of each gene, translation matches).",
+      note="Three open known findings: exact-minimum-length ORF dropped (pinned by TestOrfCounts.test_no_hits), and two origin-crossing-area "
+           "gap defects that need min_length < 2*max_overlap (no small repair). Completeness with genes present is not asserted.",
+      design="3/C15")
 NOT_YET = {}
 
 def main():
